@@ -1,6 +1,7 @@
 """C05: the separation-constraint solver on general DAG and cyclic instances."""
 import json, signal, sys
 from fractions import Fraction
+import common
 from common import Report, build_and_audit, drive, fields, rng_for, leanchecker, REPO, fr, load_known
 
 sys.path.insert(0, REPO)
@@ -258,7 +259,7 @@ def body(tier, seed, rep, only_prop=False, scale=1):
         r = one_case(inst, rep)
         if r:
             cs.append(r)
-    n = (1500 if tier == "quick" else 25000) * scale
+    n = common.count(tier, 1500, 25000) * scale
     for _ in range(n):
         r = one_case(gen_instance(rng, tier), rep)
         if r:
